@@ -197,6 +197,7 @@ class Ctx:
         ta = a.term if isinstance(a, V) else a
         tb = b.term if isinstance(b, V) else b
         pa, pb = N.nf(ta), N.nf(tb)
+        self._last_nf = (pa, pb)
         return pa == pb, show_poly(pa), show_poly(pb)
 
     def compare(self, rule, instance, N, code_v, ref_v, site="", config=""):
@@ -219,7 +220,14 @@ class Ctx:
             # the code computes the value with operations the reference formula does not use: the
             # normal form cannot decide equality (an equivalent rewrite and a fault look alike)
             return self.error(rule, instance, f"undecided: the code value uses operations outside the vocabulary of the reference formula {sorted(new_ops)[:6]}; code: {sa[:300]}  vs reference: {sb[:300]}", site)
-        return self.ob(rule, instance, False, f"code: {sa[:700]}  ≠  reference: {sb[:700]}", site, config)
+        from .nf import show_diff
+
+        try:
+            sites = show_diff(*self._last_nf)
+        except Exception:
+            sites = []
+        where = ("differs at (code vs reference): " + " ; ".join(sites) + " || ") if sites else ""
+        return self.ob(rule, instance, False, f"{where}code: {sa[:500]}  ≠  reference: {sb[:500]}", site, config)
 
     def shape_is(self, rule, instance, v, dims, site="", config=""):
         want = tuple(Dim.of(d) for d in dims)
